@@ -3,9 +3,9 @@
 M  TrimCrop.tla: the four directional scans of _trim / _crop as a state machine (one step per row /
    column visited) over every raster of small grids; at the end the scans must hold the minimal window
    (abstract: smallest rectangle containing every kept cell, NaN excluded when listed).  The scan is
-   modelled with the code's `e == val` membership test (CODE_NANEQ = FALSE): TLC proves it correct on
-   NaN-free exclusion lists and REJECTS it when NaN is listed (that configuration documents the defect);
-   with CODE_NANEQ = TRUE (what the property asks for) every configuration passes.  Negative twins.
+   modelled with the code's membership test `e == val or (isnan(e) and isnan(val))` (CODE_NANEQ = TRUE, since
+   fix 4e18dc9): every configuration passes, NaN listed or not.  Negative twins: the bare `e == val` of the old
+   code (CODE_NANEQ = FALSE) is REJECTED by TLC when NaN is listed; three broken scans are rejected.
 R  every kept-mask of the same grids through the real trim (int data/[0]; float data with the default
    NaN, [NaN, 0.0], [0.0]) and crop (zone-id lists), judged by TrimCrop_Judge.tla: the returned window is
    identified by its coordinates and must be the bounding box, with the original's cells and attrs.
@@ -19,9 +19,10 @@ import random
 from harness import core
 
 NAN = -99
-# how the *model of the code* compares NaN with NaN.  False = `e == val` as in /repo today.
-# (flip to True when /repo is repaired; DRIFT lines appear on every NaN case until then)
-CODE_NANEQ = False
+# how the *model of the code* (_trim) compares NaN with NaN.  True = `e == val or (isnan(e) and isnan(val))`
+# (the code since fix 4e18dc9).  If _trim ever falls back to the bare `e == val`, the cases with a listed NaN
+# fail with key trim:nan-never-excluded and DRIFT lines report that the scan no longer follows this model.
+CODE_NANEQ = True
 
 # keep the judge JVMs small: the machine is shared (core.judge asks for -Xmx6g per JVM)
 JVM_ENV = {"_JAVA_OPTIONS": "-Xmx1500m"}
@@ -224,16 +225,18 @@ def replay_jobs(rng, thorough):
     small = [(1, 1), (1, 2), (2, 1), (2, 2), (1, 3), (3, 1), (2, 3), (3, 2), (3, 3), (1, 4), (4, 1), (1, 5),
              (5, 1), (1, 6), (6, 1), (2, 4), (4, 2)]
     mid = [(3, 4), (4, 3)]
+    main = ("int_0", "float_default_nan")
     for (H, W) in small + mid:
         for mask in all_masks(H, W):
             for fam in FAMILIES:
-                if (H, W) in mid and not thorough and fam in ("int_0_2", "crop_2"):
+                # quick: 3x4 / 4x3 fully in the two main encodings, a seeded 1/8 in the others
+                if (H, W) in mid and not thorough and fam not in main and rng.random() >= 1 / 8:
                     continue
                 yield mark_proper(fam_job(fam, mask, H, W), mask)
     for mask in all_masks(4, 4):
         for fam in FAMILIES:
-            # quick: the full 4x4 mask space on integer data, a seeded 1/16 of it in the other encodings
-            if (thorough and fam not in ("int_0_2", "crop_2")) or fam == "int_0" or rng.random() < 1 / 16:
+            # thorough: the full 4x4 mask space in the five main encodings; otherwise a seeded 1/64 sample
+            if (thorough and fam not in ("int_0_2", "crop_2")) or rng.random() < 1 / 64:
                 yield mark_proper(fam_job(fam, mask, 4, 4), mask)
     if thorough:
         for (H, W) in [(2, 7), (7, 2), (1, 10), (10, 1), (3, 5), (5, 3)]:
@@ -284,27 +287,25 @@ def run(ctx):
     tally = setup(ctx)
     thorough = ctx.tier == "thorough"
     # ------------------------------------------------------------------ M
-    # the code's scan (CODE_NANEQ) on NaN-free lists: full mask space
+    nanlists = [[NAN], [NAN, 0], [0]]
+    # two-valued rasters: the full mask space
     for (H, W) in [(3, 3), (3, 4), (4, 3), (1, 6), (6, 1), (2, 5)]:
         mc(ctx, "trim_%dx%d" % (H, W), H, W, [0, 1], [[0]], "trim")
-    mc(ctx, "trim_4x4", 4, 4, [0, 1], [[0]], "trim", inv=INV_ALL if thorough else INV_FAST, live=False)
-    # three-valued rasters incl. NaN cells, lists without NaN (NaN cells are kept)
-    mc(ctx, "trim_nan_cells_2x3", 2, 3, [0, 1, NAN], [[0], [0, 1]], "trim")
+    # three-valued rasters incl. NaN cells x lists with and without NaN (NaN kept unless listed)
+    mc(ctx, "trim_nan_2x3", 2, 3, [0, 1, NAN], nanlists + [[0, 1]], "trim")
     mc(ctx, "crop_2x3", 2, 3, [0, 1, 2, NAN], [[1], [1, 2], [2, 1]], "crop")
     if thorough:
+        mc(ctx, "trim_4x4", 4, 4, [0, 1], [[0]], "trim", live=False)
+        mc(ctx, "trim_nan_3x3", 3, 3, [0, 1, NAN], nanlists + [[0, 1]], "trim", live=False)
         mc(ctx, "crop_3x3", 3, 3, [0, 1, 2], [[1], [1, 2]], "crop", live=False)
-        mc(ctx, "trim_nan_cells_3x3", 3, 3, [0, 1, NAN], [[0], [0, 1]], "trim", live=False)
         mc(ctx, "crop_3x4", 3, 4, [0, 1, 2], [[1], [2, 1]], "crop", inv=INV_FAST, live=False)
         mc(ctx, "trim_2x7", 2, 7, [0, 1], [[0]], "trim")
         mc(ctx, "trim_5x3", 5, 3, [0, 1], [[0]], "trim")
-    # what the property asks for (NaN matches NaN when listed): holds on every list
-    nanlists = [[NAN], [NAN, 0], [0]]
-    mc(ctx, "trim_nanlisted_intended_2x3", 2, 3, [0, 1, NAN], nanlists, "trim", naneq=True)
-    if thorough:
-        mc(ctx, "trim_nanlisted_intended_3x3", 3, 3, [0, 1, NAN], nanlists, "trim", naneq=True, live=False)
-    # the code's `e == val` with NaN listed: TLC must find the defect (also serves as a negative twin)
-    mc(ctx, "trim_nanlisted_ieee_eq_2x3", 2, 3, [0, 1, NAN], nanlists, "trim", naneq=False,
+    # negative twin: the bare `e == val` of the code before 4e18dc9 never excludes a listed NaN
+    mc(ctx, "neg_ieee_eq_nan_listed_2x3", 2, 3, [0, 1, NAN], nanlists, "trim", naneq=False,
        expect="violation", inv=["ResultIsMinimalWindow"], live=False)
+    # ... while on NaN-free lists it is indistinguishable (so the twin fails only for the stated reason)
+    mc(ctx, "ieee_eq_nan_free_lists_2x3", 2, 3, [0, 1, NAN], [[0], [0, 1]], "trim", naneq=False)
     # negative twins: broken scans must be rejected
     mc(ctx, "neg_bottom_range", 3, 3, [0, 1], [[0]], "trim", mut="bottom_range", expect="violation",
        inv=["ResultIsBox"], live=False)
@@ -330,7 +331,7 @@ def run(ctx):
     ctx.note("R: %d cases (every kept-mask of the listed grids x value encodings)" % total)
 
     # ------------------------------------------------------------------ T: seeded larger rasters
-    jobs = random_jobs(rng, ctx.pick(300, 4000))
+    jobs = random_jobs(rng, ctx.pick(200, 4000))
     cases = observe(ctx, jobs, "random_rasters", tally, "T", parallel=ctx.pick(4, 8))
     for c in cases:
         if "out" in c and (c["out"]["h"], c["out"]["w"]) != (c["H"], c["W"]):
